@@ -6,7 +6,7 @@ TECH = "contract-based deductive verification: weakest-precondition VCs generate
 BASE_NOTE = "Trusted base: go/ssa (x/tools v0.29.0) as the semantics of the source, the govc generator (guarded by the must-fail corpus ./selftest), the SMT solvers, and the assumed contracts of dependencies listed in the evidence file (trusted_base). Integers are exact Go bit-vectors; one function at a time, callees by contract. "
 
 C = {}
-C["C02"] = ("UsedUnitContainerToCdr / MultiUnitUsageToCdr / TriggersToCdr / TimeStampToCdr / PlmnIdToCdr map every container field-for-field, in order, for lists of any length (loop invariants); UpdateCDR appends the reported usage exactly once after what the record holds and leaves earlier entries untouched; OpenCDR stores the identity given at creation; CloseCDR sets the cause; Create/Update/Release act on the record ue.Cdr[sessionId] (assertions at the call of UpdateCDR). The BCD time stamp is proved against a specification function for every zone offset.",
+C["C02"] = ("UsedUnitContainerToCdr / MultiUnitUsageToCdr / TriggersToCdr / TimeStampToCdr / PlmnIdToCdr map every container field-for-field, in order, for lists of any length (loop invariants); UpdateCDR appends the reported usage exactly once after what the record holds and leaves earlier entries untouched; OpenCDR stores the identity given at creation; CloseCDR sets the cause; Create/Update/Release act on the record ue.Cdr[sessionId] (assertions at the call of UpdateCDR); the record that continues a split session starts with a usage list of its own (no shared backing array). The BCD time stamp is proved against a specification function for every zone offset.",
                "Not covered: the BER marshalling of the record (trusted BerMarshalWithParams), 'never in the record of another subscriber' across subscribers (pool lookup is an assumed contract).")
 C["C03"] = ("dumpCdrFile hands Encoding a structure whose FileLength (mod 2^32), HeaderLength, NumberOfCdrsInFile and every CdrLength describe exactly the bytes written, for any number of records (loop invariants plus an induction over the recursive size specification, 'preserved' clause); a record that fails to marshal or exceeds 65535 octets is refused; (CDRFile).Encoding is proved to write header length + sum of record sizes octets and the header layout, for any number of records.",
                "Assumed: files shorter than 4 GiB (stated at the call of Encoding), BerMarshalWithParams returns a complete BER value (C04 covers its primitives only), os.WriteFile succeeds. The size estimate that splits records in ChargingDataUpdate is not verified: an oversize record is refused (400) rather than written truncated.")
@@ -18,14 +18,14 @@ C["C07"] = ("The Diameter credit-control handler of pkg/abmf (handleCCR$1) is pr
                "Assumed: go-diameter Unmarshal yields an arbitrary well-typed request with the mandatory AVPs present (stated as assume-at clauses), mongoapi get/put behave as a table.")
 C["C08"] = ("Rating server handler (pkg/rf handleSUR$1): price = consumed x unit cost (debit), allowed = floor(quota / unit cost) and price = allowed x unit cost <= quota (reserve), no division by zero for any stored tariff; buildTaffif encodes the tariff digits/exponent as specified; CHF side (getUnitCost): the decoded tariff equals the unit cost the server applied, for integer tariffs (exponent 0).",
                "Assumed: numeric string functions (Atoi/ParseUint) as uninterpreted partial functions; math.Pow10(n) exact for 0 <= n <= 9; the rating peer's answer as restated from the server contract (assumed ensures on SendServiceUsageRequest). Decimal-fraction tariffs are outside the CHF-side claim.")
-C["C09"] = ("Lock typestate on the real handlers: every Lock is of a mutex not already held by the request (no self-deadlock), every Unlock of a held one, and every return path of Create/Update/Release/NotifyRecharge leaves the lock set as at entry; guarded-by assertions: the session reference is computed and the session table written with the subscriber lock held; NotifyRecharge touches RatingType/NotifyUri only under the lock; sessionChargingReservation requires the lock.",
-               "This is the sequential, per-request part of C09 only. Linearizability, freedom from data races on state not named in a guarded-by assertion (e.g. LocalRecordSequenceNumber, UePool insertion race in NewCHFUe) and deadlock across requests are outside what per-function contracts decide.")
+C["C09"] = ("Lock typestate on the real handlers: every Lock is of a mutex not already held by the request (no self-deadlock), every Unlock of a held one, and every return path of Create/Update/Release/NotifyRecharge leaves the lock set as at entry; guarded-by assertions: the session reference is computed and the session table written with the subscriber lock held; NotifyRecharge touches RatingType/NotifyUri only under the lock; the shared record sequence number is read under the context lock; sessionChargingReservation requires the lock.",
+               "This is the sequential, per-request part of C09 only. Linearizability, freedom from data races on state not named in a guarded-by assertion (e.g. the UePool insertion race in NewCHFUe) and deadlock across requests are outside what per-function contracts decide.")
 C["C10"] = ("Until released, the reference designates its session: Create registers the new record under the returned reference (and the Location ends in it), Update/Release act on ue.Cdr[reference] and on no other key (frame post-condition over all other keys); the reference is computed under the subscriber lock.",
                "Uniqueness of the reference string itself (ueId + consumer + sequence number concatenation) is not decided: strings are an uninterpreted sort with ground axioms, strconv.Itoa injectivity and concatenation ambiguity are not expressible. Observed, not decided: 'ue'+'a1'+'23' and 'ue'+'a12'+'3' collide.")
-C["C11"] = ("No-panic (nil dereference, index, slice bounds, division, type assertion) obligations on Create/Update/Release, OpenCDR/UpdateCDR/CloseCDR, dumpCdrFile, sessionChargingReservation, getUnitCost, cdrConvert and the Diameter clients, for every request content; every rejection is a 4xx problem; the subscriber lock is released on every path (a rejected request does not wedge the subscriber).",
-               "Assumed: answers of the Diameter peers carry the AVPs the server contracts produce (assumed ensures); gin/JSON layer above the processor is not under contract (the recharging-route fix b21b053 was found by reading while writing contracts).")
-C["C12"] = ("Create: response iff no problem, echoes the invocation sequence number, Location == url prefix + reference; Update: 200 body echoes the sequence number with a time stamp; Release: nil (204) on success; every problem is 4xx; an unknown session reference is rejected with no effect (no peer request, no reservation/record/session-table change: frame post-conditions); NotifyRecharge hands exactly one notification naming the rating group to the registered URI.",
-               "The HTTP status mapping in the gin handlers and the notification client are outside the contracts (SendChargingNotification is an assumed contract).")
+C["C11"] = ("No-panic (nil dereference, index, slice bounds, division, type assertion) obligations on Create/Update/Release, OpenCDR/UpdateCDR/CloseCDR, dumpCdrFile, sessionChargingReservation, getUnitCost, cdrConvert and the Diameter clients, for every request content; every rejection is a 4xx problem with a body and exactly one response is written per request (HandleChargingdata*, RechargePut over an assumed gin response sink); the subscriber lock is released on every path (a rejected request does not wedge the subscriber).",
+               "Assumed: answers of the Diameter peers carry the AVPs the server contracts produce (assumed ensures); JSON decoding above the handlers (openapi.Deserialize, the three ChargingdataPost-style wrappers) is not under contract; NewCHFUe admits only imsi- SUPIs (verified), which the slicing in OpenCDR and sessionChargingReservation relies on.")
+C["C12"] = ("Create: response iff no problem, echoes the invocation sequence number, Location == url prefix + reference; Update: 200 body echoes the sequence number with a time stamp; Release: nil (204) on success; every problem is 4xx; an unknown session reference is rejected with no effect (no peer request, no reservation/record/session-table change: frame post-conditions); NotifyRecharge hands exactly one notification naming the rating group to the registered URI; the HTTP handlers answer 201/200 with a body, 204 without, or a 4xx problem body.",
+               "gin is an assumed response sink; the notification client is an assumed contract (SendChargingNotification); RechargePut's truncation of the rating group to int32 is not covered.")
 C["C14"] = ("Header round trip proved for every well-formed header (all fields, all release-identifier combinations, routeing filter and private extension of any length, no records) over the real Encoding contract and the real Decoding code; files with records: bounded stand-ins (exactly 1 and exactly 2 records, thorough tier), never counted as proved.",
                "Assumed: bytes.Buffer/binary.Write/os.WriteFile/os.ReadFile as a ghost byte store. Record dimension bounded; second record's payload bytes not compared (undecided by the installed solvers).")
 C["C15"] = ("(CdrFileHeader).Encoding, (CdrHeader).Encoding return exactly the bytes of specification functions written from TS 32.297 6.1 (offsets, big-endian, bit packing, extension octets iff identifier 7, high before low); (CDRFile).Encoding writes that header first and header + sum(record header + payload) octets in total, for any number of records.",
